@@ -12,7 +12,7 @@ package webrtc
 // mid / kind of a remote media section are functions of that section.
 //@ func getMidValue
 //@ trusted
-//@ props C07 C09
+//@ props C07 C09 C06
 //@ ensures result == ufstr("midOf", media)
 //@ modifies nothing
 //@ func getPeerDirection
@@ -148,6 +148,7 @@ package webrtc
 //@ func (*sdp.MediaDescription).WithValueAttribute
 //@ trusted
 //@ props C06 C07 C12
+//@ ghost ssrcGroups += ite(key == "ssrc-group", 1, 0)
 //@ modifies nothing
 //@ func (*sdp.SessionDescription).WithValueAttribute
 //@ trusted
@@ -179,7 +180,8 @@ package webrtc
 // A sending track is announced with its stream and track ids and with the SSRCs of the
 // sender's encodings: per encoding one media source for the SSRC and, under Unified Plan,
 // one each for a non-zero RTX / FEC SSRC, all labelled with the track's stream id and id,
-// and one msid attribute '<streamID> <trackID>'.
+// one ssrc-group attribute each for a non-zero RTX and a non-zero FEC SSRC, and one msid
+// attribute '<streamID> <trackID>'.
 // Assumed: a track's ids are functions of the track; the builders only append.
 //@ func (TrackLocal).StreamID
 //@ trusted
@@ -212,3 +214,4 @@ package webrtc
 //@ atcall (*sdp.MediaDescription).WithMediaSource assert callarg1 == uint32(encoding.SSRC) || (!isPlanB && encoding.RTX.SSRC != 0 && callarg1 == uint32(encoding.RTX.SSRC)) || (!isPlanB && encoding.FEC.SSRC != 0 && callarg1 == uint32(encoding.FEC.SSRC))
 //@ atcall (*sdp.MediaDescription).WithPropertyAttribute assert callarg1 == "msid:" + ufstr("streamIdOf", track) + " " + ufstr("trackIdOf", track)
 //@ loop 1 step ghost(msrcCalls) == loophead(ghost(msrcCalls)) + 1 + ite(!isPlanB && encoding.RTX.SSRC != 0, 1, 0) + ite(!isPlanB && encoding.FEC.SSRC != 0, 1, 0)
+//@ loop 1 step ghost(ssrcGroups) == loophead(ghost(ssrcGroups)) + ite(encoding.RTX.SSRC != 0, 1, 0) + ite(encoding.FEC.SSRC != 0, 1, 0)
